@@ -4,6 +4,7 @@ mod deflate;
 mod gen;
 mod hist;
 mod iox;
+mod stream;
 mod util;
 
 use util::Args;
@@ -39,6 +40,8 @@ fn main() {
         "zstd-record" => iox::zstd_record(&args),
         "abi-record" => iox::abi_record(&args),
         "conc-record" => iox::conc_record(&args),
+        "params-replay" => stream::params_replay(&args),
+        "stream-record" => stream::record(&args),
         "hist-record" => hist::record(&args),
         other => {
             eprintln!("unknown subcommand {}", other);
